@@ -78,7 +78,7 @@ def yielding_handler():
 
 
 class ConnHarness:
-    VARS = ("free", "highest", "inflight", "reqs", "orphans", "srv", "st", "ph", "rid", "got", "errs", "cps", "pages", "cperr",
+    VARS = ("avail", "dupfree", "inflight", "reqs", "orphans", "srv", "st", "ph", "rid", "got", "errs", "cps", "pages", "cperr",
             "defunct", "closed", "writable")
     current = None
     DSE_V1 = 65
@@ -113,6 +113,10 @@ class ConnHarness:
         c.lock = DRLock("conn", yield_on_release=True)
         self.sched = DetSched()
         self._rid = {}
+        # renaming of stream ids, code -> spec (a permutation of 0..max_id): the exhaustive model hands out the least
+        # available id, the code whichever it likes; the property does not say which (see Connection.tla, AnyId)
+        self.pi = {i: i for i in range(max_id + 1)}
+        self._rid_name = {}
         orig_get = c.get_request_id
 
         def get_request_id():
@@ -150,7 +154,21 @@ class ConnHarness:
 
     def do(self, act):
         name, r, rid = act["name"], act["r"], act["id"]
-        getattr(self, "act_" + name)(r, rid)
+        if name == "Borrow":
+            before = self.project(raw=True)["avail"]
+            self.act_Borrow(r, rid)
+            c = self._rid.get(r, -1)
+            if c not in self.pi:
+                raise AssertionError("get_request_id handed out %r, outside 0..%d" % (c, self.max_id))
+            if c not in before:
+                raise AssertionError("get_request_id handed out %r, which was not available (available: %s)" % (c, sorted(before)))
+            if self.pi[c] != rid:               # the spec calls this id `rid`: swap the names of two available ids
+                c2 = next(k for k, v in self.pi.items() if v == rid)
+                self.pi[c], self.pi[c2] = rid, self.pi[c]
+            self._rid_name[r] = rid              # a request's id keeps the name it had when it was handed out
+            return
+        inv = {v: k for k, v in self.pi.items()}
+        getattr(self, "act_" + name)(r, inv.get(rid, rid))
 
     def act_Borrow(self, r, rid):
         self.sched.spawn("C%d" % r, self._client, r)
@@ -258,15 +276,17 @@ class ConnHarness:
                 return r
         return None
 
-    def project(self):
+    def project(self, raw=False):
+        """Projection of the real objects; stream ids are given their specification names (self.pi) unless raw."""
         c = self.conn
+        m = (lambda i: i) if raw else (lambda i: self.pi.get(i, i))
         st, rid, got = {}, {}, {}
         for r in self.req_names:
             f = self.futures.get(r)
             if r not in self.started:
                 st[r], rid[r], got[r] = "new", -1, frozenset()
                 continue
-            rid[r] = self._rid.get(r, -1)
+            rid[r] = self._rid.get(r, -1) if raw else self._rid_name.get(r, m(self._rid.get(r, -1)))
             if f is None or r in self.borrowed:
                 st[r] = "borrowed"
                 got[r] = frozenset()
@@ -294,8 +314,8 @@ class ConnHarness:
                 st[r] = "sending" if r in self.sending else "sent"
         reqs = {}
         for i, (cb, _, _) in c._requests.items():
-            reqs[i] = self._req_of_cb(cb)
-        srv = frozenset((p.frame.stream, int(p.req["query"].split()[1])) for p in self.node.pending
+            reqs[m(i)] = self._req_of_cb(cb)
+        srv = frozenset((m(p.frame.stream), int(p.req["query"].split()[1])) for p in self.node.pending
                         if p.conn is c and p.req.get("op") == "QUERY")
         cps, pages, cperr = {}, {r: 0 for r in self.req_names}, {r: 0 for r in self.req_names}
         for r, f in self.futures.items():
@@ -304,15 +324,19 @@ class ConnHarness:
                 continue
             for sid, s2 in c._continuous_paging_sessions.items():
                 if s2 is sess:
-                    cps[sid] = r
+                    cps[m(sid)] = r
             pages[r] = sum(1 for (n, rows, err) in sess._page_queue if err is None)
             cperr[r] = sum(1 for (n, rows, err) in sess._page_queue if err is not None)
         for sid, s2 in c._continuous_paging_sessions.items():
-            if sid not in cps:
-                cps[sid] = None
+            if m(sid) not in cps:
+                cps[m(sid)] = None
+        # what get_request_id can still hand out: the deque plus the ids it has not created yet
+        pool_ids = list(c.request_ids)
+        avail = frozenset(m(i) for i in pool_ids) | frozenset(m(i) for i in range(c.highest_request_id + 1, c.max_request_id + 1))
         return {
-            "free": tuple(c.request_ids), "highest": c.highest_request_id, "inflight": c.in_flight,
-            "reqs": reqs, "orphans": frozenset(c.orphaned_request_ids), "srv": srv, "st": st,
+            "avail": avail, "dupfree": len(set(pool_ids)) != len(pool_ids) or any(i > c.highest_request_id for i in pool_ids),
+            "inflight": c.in_flight,
+            "reqs": reqs, "orphans": frozenset(m(i) for i in c.orphaned_request_ids), "srv": srv, "st": st,
             "ph": {r: ("encode" if r in self.sending else "none") for r in self.req_names}, "rid": rid,
             "got": got, "errs": dict(self.errs), "cps": cps, "pages": pages, "cperr": cperr,
             "defunct": bool(c.is_defunct), "closed": bool(c.is_closed), "writable": bool(c._socket_writable),
@@ -332,7 +356,7 @@ def spec_view(state):
             return {i + 1: x for i, x in enumerate(v)}
         return dict(v)
     return {
-        "free": tuple(state["free"]), "highest": state["highest"], "inflight": state["inflight"],
+        "avail": frozenset(state["avail"]), "dupfree": False, "inflight": state["inflight"],
         "reqs": fn(state["reqs"]), "orphans": frozenset(state["orphans"]),
         "srv": frozenset(tuple(m) for m in state["srv"]), "st": fn(state["st"]), "ph": fn(state["ph"]), "rid": fn(state["rid"]),
         "got": {k: frozenset(v) for k, v in fn(state["got"]).items()}, "errs": fn(state["errs"]),
@@ -364,6 +388,14 @@ def replay(constants, states, raisers=()):
                 h.do(act)
             except AssertionError as ex:
                 return {"step": i, "action": act, "diff": {"_refused": {"spec": "enabled", "code": "harness could not perform: %s" % ex}}}
+            except Exception as ex:          # noqa: BLE001 - the code under test raised inside a callback / client call
+                import traceback
+                tb = traceback.extract_tb(ex.__traceback__)
+                where = next(("%s:%d" % (f.filename.rsplit("/", 1)[-1], f.lineno) for f in reversed(tb) if "/cassandra/" in f.filename), "?")
+                if where == "?":
+                    raise                    # not the driver's code: a harness problem, reported as machinery failure
+                return {"step": i, "action": act,
+                        "diff": {"_raised": {"spec": "completes", "code": "%s: %s (at %s)" % (type(ex).__name__, ex, where)}}}
             real = h.project()
             sv = spec_view(s)
             # rid of a borrowed request is read from the suspended frame; of finished ones from the future
@@ -378,7 +410,7 @@ def replay(constants, states, raisers=()):
 # ---------------------------------------------------------------------- recording (code -> spec)
 def _post(p, reqs):
     return {
-        "inflight": p["inflight"], "highest": p["highest"], "free": list(p["free"]),
+        "inflight": p["inflight"], "avail": sorted(p["avail"]),
         "orphans": sorted(p["orphans"]), "reqs": sorted([i, r] for i, r in p["reqs"].items()),
         "srv": sorted(list(m) for m in p["srv"]),
         "st": [p["st"][r] for r in reqs], "ph": [p["ph"][r] for r in reqs], "rid": [p["rid"][r] for r in reqs],
@@ -455,7 +487,10 @@ def record(constants, rng, max_events=40, p_fail=0.04):
                 else:
                     ev["r"] = arg
                     getattr(h, "act_" + op)(arg, -1)
-                ev["post"] = _post(h.project(), reqs)
+                pr = h.project(raw=True)
+                if pr["dupfree"]:
+                    raise RuntimeError("the id deque holds an id twice, or an id it never created: %s" % list(h.conn.request_ids))
+                ev["post"] = _post(pr, reqs)
             except Exception as ex:          # the real objects left the envelope the harness can drive
                 ev = {"e": "Anomaly", "during": dict(ev), "what": "%s: %s" % (type(ex).__name__, ex)}
                 events.append(ev)
